@@ -13,6 +13,7 @@ package main
 
 import (
 	"context"
+	"crypto/tls"
 	"encoding/binary"
 	"fmt"
 	"net"
@@ -118,6 +119,8 @@ type scenario struct {
 	DelayMs   int           `json:"gate_delay_ms"`
 	ResetConn int           `json:"connections_reset_by_client_before_shutdown"`
 	OneWay    bool          `json:"every_other_request_one_way"`
+	TLS       bool          `json:"tls"`
+	IdleMs    int           `json:"connections_idle_ms_before_shutdown"` // with requests_per_connection = 0: clients that only sit there
 }
 
 type connResult struct {
@@ -134,6 +137,14 @@ func runScenario(sc scenario) {
 	conf := netlab.DefaultServerConf("tcp")
 	conf.MaxInvoke = int32(sc.Pool)
 	conf.QueueCap = 100000
+	if sc.TLS {
+		tc, err := netlab.SelfSignedTLS()
+		if err != nil {
+			run.Inconclusive("cannot make a certificate: " + err.Error())
+			return
+		}
+		conf.TlsConfig = tc
+	}
 	ts, err := netlab.StartServer(p, conf)
 	if err != nil {
 		run.Inconclusive("cannot start server")
@@ -143,9 +154,15 @@ func runScenario(sc scenario) {
 	results := make([]*connResult, sc.Conns)
 	var rwg sync.WaitGroup
 	for c := 0; c < sc.Conns; c++ {
-		cn, err := net.DialTimeout("tcp", conf.Address, 3*time.Second)
+		var cn net.Conn
+		var err error
+		if sc.TLS {
+			cn, err = tls.DialWithDialer(&net.Dialer{Timeout: 3 * time.Second}, "tcp", conf.Address, &tls.Config{InsecureSkipVerify: true})
+		} else {
+			cn, err = net.DialTimeout("tcp", conf.Address, 3*time.Second)
+		}
 		if err != nil {
-			run.Inconclusive("dial failed")
+			run.Inconclusive("dial failed: " + err.Error())
 			return
 		}
 		conns[c] = cn
@@ -215,6 +232,9 @@ func runScenario(sc scenario) {
 	}
 	if sc.ResetConn > 0 {
 		time.Sleep(20 * time.Millisecond)
+	}
+	if sc.IdleMs > 0 {
+		time.Sleep(time.Duration(sc.IdleMs) * time.Millisecond) // connected clients that have been idle for a while
 	}
 	ctx, cancel := context.WithTimeout(context.Background(), time.Duration(sc.CtxMs)*time.Millisecond)
 	defer cancel()
@@ -419,6 +439,15 @@ func main() {
 					id++
 					scs = append(scs, scenario{ID: id, Pool: pool, Conns: cb.conns, PerConn: cb.per, Script: v.script, CtxMs: 6000, Delay: time.Duration(v.delay) * time.Millisecond, DelayMs: v.delay, OneWay: id%4 == 1})
 				}
+			}
+			// idle clients (no request at all, connected for 2.3 s), plain and TLS: they get the notice too
+			for _, tlsOn := range []bool{false, true} {
+				for k := 0; k < 4; k++ { // whether the notice goes out is a race between the accept loop and the shutdown poller: several servers at once
+					id++
+					scs = append(scs, scenario{ID: id, Pool: pool, Conns: 3 + k, PerConn: 0, Script: "all-at-once", CtxMs: 6000, TLS: tlsOn, IdleMs: 2300})
+				}
+				id++
+				scs = append(scs, scenario{ID: id, Pool: pool, Conns: 3, PerConn: 2, Script: "all-at-once", CtxMs: 6000, Delay: 300 * time.Millisecond, DelayMs: 300, TLS: tlsOn})
 			}
 			// clients that die by reset while their requests execute; healthy ones must still get the notice
 			id++
